@@ -8,11 +8,11 @@ from fractions import Fraction as F
 from core import Case
 
 PROP = 'C14'
-COQ_TARGETS = ['theories/DeferredFacts.vo', 'theories/SchedFacts.vo', 'theories/SchedThms.vo', 'theories/SchedOrder.vo', 'theories/SchedC14.vo']
+COQ_TARGETS = ['theories/DeferredFacts.vo', 'theories/SchedFacts.vo', 'theories/SchedThms.vo', 'theories/SchedOrder.vo', 'theories/SchedRun.vo', 'theories/SchedC14.vo']
 COQ_IMPORTS = 'From Bac Require Import Base Deferred Sched.'
 RULE = ('cases: one case = the whole observable outcome (event trace of fire/call/raise/API-error, heap in pop order with '
         'counters, isScheduled/taskTime of every task, deferredFns) of a history run on the real TaskManager under a virtual '
-        'clock and on the model.  (A) every op sequence of length <= 3 (quick) / <= 5 (thorough) over 2 one-shot tasks and a '
+        'clock and on the model.  (A) every op sequence of length <= 3 (quick) / <= 4 plus 30% of length 5 (thorough) over 2 one-shot tasks and a '
         '15-letter alphabet {install at 1|2, install after 1, re-install, suspend, resume} x task + {advance 1, poll, run_once} '
         'with colliding times (quick: all of length <= 3 and a quarter of length 4), each followed by a flush; the same over 3 tasks one of which raises; random histories of length 200 over 4 tasks (raising / deferring '
         'callbacks, Defer, Poll, RunOnce, Run); (B) recurring tasks over interval/offset grids incl. 0.1 s, 0.3 s, 1/3 s with '
@@ -710,6 +710,8 @@ def cases(rng, tier):
         for prefix in itertools.product(alpha, repeat=L):
             if L == 3 and not big and rng.random() >= 0.25:
                 continue
+            if L == 4 and rng.random() >= 0.3:
+                continue
             out.append(mk_packed_case('A-exhaustive', cfg2, prefix, alpha, 'int', 1))
     # a raising task among colliding ones, over 3 tasks
     cfg3 = [ONE, (('one',), True, ()), ONE]
@@ -718,13 +720,15 @@ def cases(rng, tier):
         for prefix in itertools.product(alpha3, repeat=L):
             if L == 2 and not big and rng.random() >= 0.35:
                 continue
+            if L == 3 and rng.random() >= 0.3:
+                continue
             out.append(mk_packed_case('A-exhaustive-raising', cfg3, prefix, alpha3, 'int', 1))
     # (A) random long histories
-    for _ in range(40 if tier != 'thorough' else 1500):
+    for _ in range(40 if tier != 'thorough' else 600):
         cfg, ops = random_history_A(rng)
         out.append(mk_case('A-random-200', cfg, ops, 'int', 1))
     # (B) recurring
-    want = 200 if tier != 'thorough' else 6000
+    want = 200 if tier != 'thorough' else 2000
     for epoch, mode, kind in ((False, 'tick', 'B-recurring-tick'), (True, 'slot', 'B-recurring-epoch-slot')):
         got = tries = 0
         while got < want and tries < want * 20:
@@ -752,7 +756,7 @@ def cases(rng, tier):
         out.append(mk_case('D-run_once', [], ops + [('runonce',)], 'int', 1))
         out.append(mk_case('D-run', [], ops + [('run',)], 'int', 1))
     # deferred work submitted from (possibly raising) task callbacks that collide in time
-    for _ in range(100 if tier != 'thorough' else 2000):
+    for _ in range(100 if tier != 'thorough' else 1000):
         nextid = [0]
         cfg = [(('one',), rng.random() < 0.3, tuple(gen_dfn_forest(rng, 3, nextid, 0.4))) for _ in range(3)]
         ops = [('install', i, rng.choice([1, 1, 2])) for i in range(3)]
@@ -944,8 +948,9 @@ def direct(rng, tier, focus=()):
     fails.sort(key=lambda f: len(f.get('ops', '')))
     return fails, {'evaluations': stats['evaluations'], 'distinct_nontrivial': len(stats['nontrivial']),
                    'exhaustive': True,
-                   'exhaustive_domain': 'all op sequences of length <= 3 over the 15-letter alphabet on 2 one-shot tasks; every raising '
-                                        'subset of flat deferred batches of <= 6 and of all forests of <= 4 functions',
+                   'exhaustive_domain': 'all op sequences of length <= %d over the 15-letter alphabet on 2 one-shot tasks; every raising '
+                                        'subset of flat deferred batches of <= 6 and of all forests of <= %d functions'
+                                        % ((4, 5) if tier == 'thorough' else (3, 4)),
                    'samples': samples}
 
 
@@ -1005,7 +1010,31 @@ def _direct(rng, tier, focus, fails, stats, samples):
                 check_history(cfg, list(ast.literal_eval(d['prefix'])) + [o] + FLUSH, 'int', fails, stats)
 
 
+def _has_raising_before_other(cfg, ops):
+    """some detached batch can contain a raising function followed by another one"""
+    import itertools as it
+
+    def walk(ds):
+        for d in ds:
+            yield d
+            yield from walk(d[2])
+    fns = list(walk([o[1] for o in ops if o[0] == 'defer'])) + [d for k in cfg for d in walk(k[2])]
+    return any(d[1] for d in fns) and len(fns) >= 2
+
+
 def classify(failure):
+    """C14-deferred-batch-lost (status fixed: suppresses nothing, only names the cause): the deferred calls
+    differ from the submissions and the history submits a raising function among others"""
+    import ast
+    if failure.get('kind') == 'deferred-not-once-in-order':
+        try:
+            cfg, ops = ast.literal_eval(failure['cfg']), ast.literal_eval(failure['ops'])
+        except Exception:
+            return None
+        called, submitted = failure.get('called', []), failure.get('submitted', [])
+        lost = [x for x in submitted if x not in called]
+        if lost and _has_raising_before_other(cfg, ops) and called == [x for x in submitted if x in called]:
+            return 'C14-deferred-batch-lost'
     return None
 
 
@@ -1018,7 +1047,11 @@ def replay(payload):
         out, im = impl_outcome(cfg, ops, mode)
         print('implementation trace:', im.trace)
         print('implementation outcome:', out)
-        print('reference (port of the model):', ref_outcome(cfg, ops, mode, 1 if mode == 'int' else JIT_B)[0])
+        jit = 1 if mode == 'int' else JIT_B
+        print('reference (port of the model):', ref_outcome(cfg, ops, mode, jit)[0])
+        import core
+        got, err = core.coq_eval(COQ_IMPORTS, coq_run(cfg, ops, mode, jit))
+        print('model (Coq, vm_compute):', got if got is not None else 'not evaluated: ' + err[-300:])
         fails, stats = [], {'evaluations': 0, 'nontrivial': set()}
         check_history(cfg, ops, mode, fails, stats)
         print('direct predicate:', fails or 'holds')
